@@ -23,7 +23,7 @@ import (
 	"strings"
 )
 
-func init() { generators["AccessFacts"] = genAccessFacts }
+func init() { register2("AccessFacts", genAccessFacts) }
 
 type c09Spec struct {
 	dir     string
@@ -1192,5 +1192,5 @@ func genAccessFacts(repo, out string) error {
 		}
 	}
 	b.WriteString("].\n")
-	return writeIfChanged(filepath.Join(out, "AccessFacts.v"), b.Bytes())
+	return writeIfChanged(filepath.Join(out, "AccessFacts.v"), b.String())
 }
